@@ -85,6 +85,35 @@ pub fn case(seed: u64, st: &mut Stats) {
         if rng.chance(1, 6) {
             lvl.set(Setting::DontDelimitTrailingValues);
         }
+        // settings that change how bare words / dash words are looked at *before* the `--`
+        if rng.chance(1, 3) {
+            lvl.set(Setting::SubcommandPrecedenceOverArg);
+        }
+        if rng.chance(1, 4) {
+            lvl.set(Setting::InferSubcommands);
+        }
+        if rng.chance(1, 4) {
+            lvl.set(Setting::InferLongArgs);
+        }
+        if rng.chance(1, 5) {
+            lvl.set(Setting::ArgsOverrideSelf);
+        }
+        if let Some(r) = lvl.args.iter_mut().find(|a| a.id == "rest") {
+            // only for a `last` positional: otherwise hyphen values change what the *prefix* means
+            // (dash words before `--` become values), which is outside this property's premise
+            if r.last && rng.chance(1, 3) {
+                r.allow_hyphen = true;
+            }
+            if r.last && rng.chance(1, 3) {
+                r.allow_negative = true;
+            }
+        }
+    }
+    if rng.chance(1, 4) {
+        root.set(Setting::SubcommandPrecedenceOverArg);
+    }
+    if rng.chance(1, 5) {
+        root.set(Setting::ArgsConflictsWithSubcommands);
     }
     let cmd = match gate(&root) {
         Ok(c) => c,
@@ -116,6 +145,10 @@ pub fn case(seed: u64, st: &mut Stats) {
             // the parent's open occurrences must be closed before the subcommand name: regenerate
             // the parent part with the subcommand fixed is simplest — keep only closed shapes
             intent.items.retain(|it| matches!(it, Item::Flag { .. }));
+            if root.has(Setting::ArgsConflictsWithSubcommands) {
+                // arguments before the subcommand name would make the name a positional / a conflict
+                intent.items.clear();
+            }
             intent.external = None;
             intent.sub = Some((sub_idx, Box::new(child)));
         } else {
